@@ -85,12 +85,7 @@ func runC23(c c23Case, rec *ev.Rec) error {
 		rec.Discard() // a C01-level failure of the history itself is not judged here
 		return nil
 	}
-	if r.KnownTriggerSeen() {
-		// replay of these histories diverges by the known WAL-ordering findings; snapshot and WAL
-		// restarts then legitimately differ
-		rec.Discard()
-		return nil
-	}
+	knownTrigger := r.AnyKnownTrigger()
 	if err := r.DB.Close(); err != nil {
 		return ev.Failf("Close: %v", err)
 	}
@@ -127,17 +122,43 @@ func runC23(c c23Case, rec *ev.Rec) error {
 			}
 		}
 	}
+	// structural failures of a restart that the history runner already attributes to a listed finding
+	restartErr := func(which string, err error) error {
+		if r.SnapRefRisk {
+			return ev.FailSig("snapshot-restart-reissues-series-ref", "%s: %v (series ref re-issued after a snapshot restart)\nhistory:\n%s", which, err, r.TraceString())
+		}
+		if knownTrigger {
+			rec.Discard()
+			return nil
+		}
+		return nil
+	}
 	sa, replayErrs, err := openAndQuery(dirA, c.H.Cfg)
 	if err != nil {
+		if r.SnapRefRisk || knownTrigger {
+			return restartErr("reopen with snapshot", err)
+		}
 		return ev.Failf("reopen with snapshot (damage=%d): %v\nhistory:\n%s", c.Damage, err, r.TraceString())
 	}
 	sb, _, err := openAndQuery(dirB, c.H.Cfg)
 	if err != nil {
+		if r.SnapRefRisk || knownTrigger {
+			return restartErr("reopen without snapshot", err)
+		}
 		return ev.Failf("reopen without snapshot: %v\nhistory:\n%s", err, r.TraceString())
+	}
+	if sa != sb && c.Damage != 0 && damaged && replayErrs == 0 {
+		return ev.FailSig("damaged-snapshot-loaded-without-error", "a damaged snapshot (damage=%d at %d) was loaded without a replay error and the restart returns different data than a WAL-only restart\nwith snapshot:\n%swithout snapshot:\n%shistory:\n%s", c.Damage, c.Pos, sa, sb, r.TraceString())
 	}
 	if sa != sb {
 		if r.OOODeleteSeen() {
 			return ev.FailSig(tsdbrun.SigDeleteOOO, "restart from the snapshot and restart from the WAL return different data after a delete covering out-of-order samples\nwith snapshot:\n%swithout snapshot:\n%shistory:\n%s", sa, sb, r.TraceString())
+		}
+		if !r.SnapRefRisk && knownTrigger {
+			// WAL replay of this history diverges by a known finding of the history runner
+			// (listed under C01); snapshot and WAL restarts then legitimately differ
+			rec.Discard()
+			return nil
 		}
 		if r.SnapRefRisk {
 			return ev.FailSig("snapshot-restart-reissues-series-ref", "restart from the snapshot and restart from the WAL return different data (series ref re-issued after a snapshot restart)\nwith snapshot:\n%swithout snapshot:\n%shistory:\n%s", sa, sb, r.TraceString())
